@@ -5,6 +5,10 @@ go 1.26
 require (
 	github.com/anishathalye/porcupine v1.3.0
 	github.com/google/certificate-transparency-go v0.0.0
+	github.com/google/trillian v1.7.1
+	google.golang.org/grpc v1.71.1
+	google.golang.org/protobuf v1.36.6
+	k8s.io/klog/v2 v2.130.1
 	pgregory.net/rapid v1.3.0
 )
 
@@ -12,7 +16,6 @@ require (
 	filippo.io/edwards25519 v1.1.0 // indirect
 	github.com/go-logr/logr v1.4.2 // indirect
 	github.com/go-sql-driver/mysql v1.9.1 // indirect
-	github.com/google/trillian v1.7.1 // indirect
 	github.com/hashicorp/golang-lru/v2 v2.0.7 // indirect
 	github.com/jackc/pgpassfile v1.0.0 // indirect
 	github.com/jackc/pgservicefile v0.0.0-20240606120523-5a60cdf6a761 // indirect
@@ -24,9 +27,6 @@ require (
 	golang.org/x/sys v0.31.0 // indirect
 	golang.org/x/text v0.23.0 // indirect
 	google.golang.org/genproto/googleapis/rpc v0.0.0-20250115164207-1a7da9e5054f // indirect
-	google.golang.org/grpc v1.71.1 // indirect
-	google.golang.org/protobuf v1.36.6 // indirect
-	k8s.io/klog/v2 v2.130.1 // indirect
 )
 
 replace github.com/google/certificate-transparency-go => /repo
